@@ -2,6 +2,7 @@
 // One command per line:
 //   tree d per H B mode N  n_11..n_1d ... n_N1..n_Nd  [| query]...
 // particle k has position n_kj / (16 * 2^(H-1)) in the unit box (exactly representable).
+#include <thread>
 #include "tbfglobal.hpp"
 #include "spacial/tbfmortonspaceindex.hpp"
 #include "spacial/tbfspacialconfiguration.hpp"
@@ -58,7 +59,8 @@ std::string run_tree(const Cmd& c){
         for(long k = 0 ; k < D ; ++k) pos[i][k] = double(c.L(a++)) / scale;
         for(long e = 0 ; e < NX ; ++e) pos[i][D+e] = double(i) * 10 + double(e) + 0.25;
     }
-    Tree tree(conf, pos, B, mode != 0);
+    // B < 0: the automatic block size (the constructor's default argument -1); -B = the hardware concurrency the case was made for
+    Tree tree(conf, pos, B < 0 ? -1 : B, mode != 0);
     std::string out = dump(tree);
     auto cur = pos;   // current data per original index (positions edited by mv)
     // queries
@@ -204,6 +206,7 @@ std::string run_tree(const Cmd& c){
 
 int main(int argc, char** argv){
     return run_commands(argc, argv, [](const Cmd& c) -> std::string {
+        if(c.tok[0] == "hc") return std::to_string(std::thread::hardware_concurrency());
         if(c.tok[0] != "tree") return "?unknown";
         const long d = c.L(1); const bool per = c.L(2) != 0;
         switch(d*2 + (per?1:0)){
